@@ -50,6 +50,10 @@ def shapes_c08(tier):
                 for ov in (0, 1):
                     for merged in ((0, 1) if N in (1, 2) and subject == 'S2' else (0,)):
                         out.append((subject, N, pm, tuple(1 if i == 0 else 0 for i in range(N)), ov, merged))
+    # keyframes that copy whole values (Animate::keyframe_from): the excluded field of S3 must still be left alone
+    for N in (1, 2):
+        for ov in (0, 1):
+            out.append(('S3', N, tuple((1, 1) for _ in range(N)), tuple(0 for _ in range(N)), ov, 2))
     return out
 
 
@@ -63,8 +67,19 @@ def run_c08(shape):
         assume_positions(m, pos)
         m.assume(tm.valid())
         kfs = mk_kfs(api, shape, pos, vals)
-        tl = build_timeline(m, api, kfs, tm, tag_easing(0), memo_key='t')
-        if merged:
+        if merged == 2:
+            # every keyframe is produced by the real keyframe_from(&values, position)
+            cfg = m.call_fn(api.timeline, [])
+            cfg = m.call_fn(api.cfg['duration_seconds'], [cfg, Sc('f32', tm.dur)]); cfg = m.call_fn(api.cfg['delay_seconds'], [cfg, Sc('f32', tm.delay)])
+            cfg = m.call_fn(api.cfg['repeat'], [cfg, tm.repeat_val()]); cfg = m.call_fn(api.cfg['reverse'], [cfg, Sc('bool', tm.reverse)])
+            for i in range(N):
+                src = Agg(subject, [Sc(ty, z3.Const(f'kfsrc{i}_{n}', sort_of(ty))) for n, ty in api.target_fields])
+                kb = m.call_fn(api.keyframe_from, [m.alloc(src), Sc('f32', pos[i])])
+                cfg = m.call_fn(api.cfg['keyframe'], [cfg, kb])
+            tl = m.call_fn(api.build, [cfg])
+        else:
+            tl = build_timeline(m, api, kfs, tm, tag_easing(0), memo_key='t')
+        if merged == 1:
             # a second component that animates nothing the first one leaves alone: same keyframes, other timing
             tm2 = Timing('_2'); m.assume(tm2.valid())
             tl2 = build_timeline(m, api, kfs, tm2, tag_easing(0), memo_key='t2')
